@@ -10,9 +10,20 @@ from .models import make_interp
 from .values import (NONE, TRUE, FALSE, AbsList, BoolV, EnumV, Hole, ListV, Obj, Str, Unknown, Value)
 
 
+def absorb_consumed(I: Interp, cons: Obj, before: Dict[str, int]) -> None:
+    """turn every list field of the consumer that grew while consuming into a list of unknown length"""
+    for k, v in cons.fields.items():
+        if isinstance(v, ListV) and v.absorbed is None and len(v.items) > before.get(k, 0):
+            v.absorbed = AbsList(v.items[-1], "consumed instructions", {})
+
+
+def list_sizes(cons: Obj) -> Dict[str, int]:
+    return {k: len(v.items) for k, v in cons.fields.items() if isinstance(v, ListV) and v.absorbed is None}
+
+
 class Scenario:
-    def __init__(self, mode: str, only_addr: bool, path: Path, obs: Obj, cons: Obj) -> None:
-        self.mode, self.only_addr, self.path, self.obs, self.cons = mode, only_addr, path, obs, cons
+    def __init__(self, mode: str, only_addr: bool, path: Path, obs: Obj, cons: Obj, feed: str = "two") -> None:
+        self.mode, self.only_addr, self.path, self.obs, self.cons, self.feed = mode, only_addr, path, obs, cons, feed
 
     def regex_calls(self, I: Interp) -> List[Dict[str, Any]]:
         out = []
@@ -33,7 +44,25 @@ class Scenario:
         return out
 
 
-def consumer_scenarios(I: Interp) -> List[Scenario]:
+def observer_two_reports(I: Interp) -> List[Path]:
+    """MatchedObserver().regex_matched(a); .regex_matched(b) -> the observer"""
+    mo = I.p.find_class("MatchedObserver")
+
+    def thunk(I: Interp) -> Value:
+        obs = I.construct(mo, [], {}, None, None)
+        m = mo.find_method("regex_matched")
+        if m is None:
+            raise AnalysisError("anchor MatchedObserver.regex_matched not found")
+        I.run.user["obs"] = obs
+        I.run.user["matched0"] = I.get_attr(obs, "matched", None, None)
+        for name in ("hit_a", "hit_b"):
+            I.call_func(m, [Unknown(name, {"expr": name, "truthy": True, "not_none": True})], {}, obs, None, None)
+        return obs
+    return I.explore(thunk)
+
+
+def consumer_scenarios(I: Interp, feed: str = "two") -> List[Scenario]:
+    """feed='two': exactly two instructions (order/completeness); feed='many': a listing of unknown length"""
     p = I.p
     cc = p.find_class("CompleteConsumer")
     mo = p.find_class("MatchedObserver")
@@ -47,16 +76,23 @@ def consumer_scenarios(I: Interp) -> List[Scenario]:
                                             "matched_observer": obs, "matching_mode": EnumV(mode_cls, mode),
                                             "return_only_address": TRUE if only else FALSE}, None, None)
                 I.run.user["obs"], I.run.user["cons"] = obs, cons
-                inst = Unknown("inst", {"truthy": True, "not_none": True})
-                # one abstract instruction is consumed (the record writer is judged by C10)
+                # two abstract instructions are consumed, in this order (the record writer is judged by C10)
                 m = cc.find_method("consume_instruction")
                 if m is None:
                     raise AnalysisError("anchor CompleteConsumer.consume_instruction not found")
-                I.call_func(m, [inst], {}, cons, None, None)
+                if feed == "two":
+                    for k in (1, 2):
+                        inst = Unknown(f"inst{k}", {"truthy": True, "not_none": True, "expr": f"inst{k}"})
+                        I.call_func(m, [inst], {}, cons, None, None)
+                else:
+                    before = list_sizes(cons)
+                    inst = Unknown("inst", {"truthy": True, "not_none": True, "expr": "inst"})
+                    I.call_func(m, [inst], {}, cons, None, None)
+                    absorb_consumed(I, cons, before)
                 fin = cc.find_method("finalize")
                 if fin is None:
                     raise AnalysisError("anchor CompleteConsumer.finalize not found")
                 return I.call_func(fin, [], {}, cons, None, None)
             for path in I.explore(thunk):
-                out.append(Scenario(mode, only, path, path.run.user.get("obs"), path.run.user.get("cons")))
+                out.append(Scenario(mode, only, path, path.run.user.get("obs"), path.run.user.get("cons"), feed))
     return out
